@@ -4,13 +4,14 @@
 EXTENDS Integers, Sequences, FiniteSets, TLC, Json
 VARIABLES i, run, m, bad
 Trace == ndJsonDeserialize("mon.ndjson")
-MonInit == [sub |-> "none", served |-> "none", cbdone |-> FALSE, ret |-> "none", deadline |-> FALSE, viol |-> {}]
+MonInit == [sub |-> "none", served |-> "none", cbdone |-> FALSE, ret |-> "none", deadline |-> FALSE, cancel |-> FALSE, viol |-> {}]
 V(x, c, msg) == IF c THEN x ELSE [x EXCEPT !.viol = @ \cup {msg}]
 Apply(x, e) ==
   CASE e.ev = "Submit" -> [x EXCEPT !.sub = IF e.ok THEN "ok" ELSE "err"]
     [] e.ev = "Served" -> [x EXCEPT !.served = e.outcome]
     [] e.ev = "Deadline" -> [x EXCEPT !.deadline = TRUE]
     [] e.ev = "CallbackDone" -> [x EXCEPT !.cbdone = TRUE]
+    [] e.ev = "Cancel" -> [x EXCEPT !.cancel = TRUE]
     [] e.ev = "Return" ->
          V(V([x EXCEPT !.ret = e.result],
              e.result = "ok" => x.served = "ok", "success reported for an operation the server did not confirm"),
@@ -18,7 +19,8 @@ Apply(x, e) ==
     [] e.ev = "Quiesced" ->
          V(V(V(x, x.sub = "none" \/ x.ret # "none", "the call did not return"),
              x.served = "none" \/ x.cbdone, "the completion callback blocked"),
-           ~(x.sub = "ok" /\ x.served = "none" /\ ~x.deadline) \/ x.ret = "none" \/ TRUE, "")
+           ~(x.ret = "timeout" /\ x.served \in {"none", "cancel"}) \/ x.cancel,
+           "the deadline passed on a silent server but the pending operation was not cancelled")
     [] OTHER -> x
 MInit == i = 1 /\ run = 0 /\ m = MonInit /\ bad = {}
 MNext == /\ i <= Len(Trace) /\ i' = i + 1
